@@ -42,6 +42,16 @@ InvC04K ==
                ELSE PrintT(<<"VIOLATION", "C04", Last.hid, Last.step>>)))
     /\ (IsObs => Report("C04", C04obs(Last)))
 
+\* C19c with the model as annotator: when the model reads the produced trace exactly as the code wrote it,
+\* every peer the model forwards to (it does so exactly when it newly marks a call as sent to that peer)
+\* must be among the implementation's next peers
+InvC19c ==
+    IsRun =>
+        LET e == Last  m == ModelOutcome(pre, e) IN
+        (~m.unsup /\ e.out.died = "" /\ m.code = e.out.code /\ ReturnsNewData(e.out.code)
+            /\ StripTrace(m.data.trace) = StripTrace(e.out.data.trace)) =>
+            Report("C19", SetOf(m.next) \subseteq SetOf(e.out.next))
+
 InvConf ==
     IsRun =>
         LET e == Last
